@@ -991,7 +991,15 @@ func killable(ctx context.Context, stdin io.Reader) (done func()) {
 		return func() {}
 	}
 	stopc := make(chan struct{})
+	var tok uint64
+	if simWorld != nil {
+		tok = simWorld.S.Spawn()
+	}
 	stop := context.AfterFunc(ctx, func() {
+		if simWorld != nil {
+			simWorld.S.Start(tok)
+			defer simWorld.S.End()
+		}
 		dl.SetReadDeadline(time.Now())
 		close(stopc)
 	})
@@ -999,6 +1007,8 @@ func killable(ctx context.Context, stdin io.Reader) (done func()) {
 		if !stop() {
 			<-stopc
 			dl.SetReadDeadline(time.Time{})
+		} else if simWorld != nil {
+			simWorld.S.Drop(tok)
 		}
 	}
 }
@@ -1034,6 +1044,7 @@ func (w *World) Hooks() *interp.VerifHooks {
 	return &interp.VerifHooks{
 		Yield: w.S.Yield,
 		Spawn: w.S.Spawn,
+		Drop:  w.S.Drop,
 		Start: w.S.Start,
 		End:   w.S.End,
 		NewPipe: func() (interp.VerifFile, io.WriteCloser, error) {
